@@ -33,6 +33,7 @@ CHECKS = {
     "C03": dict(tests=[
         rapid("storeprops", "TestC03Store", 24000, 1600000, qs=8, replay="TestC03StoreReplay"),
         rapid("e2e", "TestC03Forks", 640, 32000, qs=8, ts=16, timeout=1200, ttimeout=14000, replay="TestC03ForksReplay"),
+        rapid("e2e", "TestC03ForksBackfill", 320, 16000, qs=8, ts=16, timeout=1200, ttimeout=14000, replay="TestC03ForksBackfillReplay"),
     ]),
     "C04": dict(tests=[
         rapid("e2e", "TestC04", 320, 9600, qs=16, ts=16, timeout=1200, ttimeout=14000, replay="TestC04Replay"),
